@@ -46,6 +46,12 @@ FLOORS = {"quick": {"docs_compared": 500, "docs_with_multibyte_neighbour": 300, 
 NDOC = {"quick": 110, "thorough": 2500}
 SHARDS = {"quick": 8, "thorough": 14}
 MB = ["“", "”", "’", "—", "é", "ü", "§", "¶", "…", "™", "\U00010000", "ñ", "–", "\ud83d", "\udc00"]
+# punctuation whose UTF-8 form contains every continuation byte value 0x80-0xBF at least once (a byte-level
+# operation that singles out one byte value - 0x85, 0xA0 - hits some of these and no ASCII text):
+# U+2010-U+2027 and U+2030-U+203E are E2 80 90..BE, U+00A1-U+00BF are C2 A1..BF, U+2190-U+21BF are E2 86 90..BF
+CONT = [chr(c) for c in list(range(0x2010, 0x2028)) + list(range(0x2030, 0x203F)) + list(range(0xA1, 0xC0))
+        + list(range(0x2190, 0x21C0)) + list(range(0x2580, 0x25C0))
+        if not chr(c).isalnum() and not chr(c).isspace() and not chr(c).isdigit() and not chr(c).isnumeric()]
 FR = ["Foo v. Bar, 1 U.S. 1 (1999)", "2 F.2d 3, 5", "Id. at 5", "Foo, supra, at 3", "Mass. Gen. Laws ch. 1, § 2",
       "42 U.S.C. § 1983", "1 Minn. L. Rev. 1", "see also", "Roe, 410 U.S. at 120", "In re Gault",
       "Bankr. L. Rep. (CCH) ¶12,345", "Ibid.", "§§ 1-2", "cert. denied", "1 Thompson 5", "T.C. Memo. 2019-233",
@@ -101,7 +107,7 @@ def edge_fragment(rng):
     if k < 0.8:
         # a keyword with runs of punctuation (ASCII and multi-byte, 0-6 characters) glued to both sides: bounds
         # counted in characters by one engine and in bytes by the other differ exactly here
-        marks = ["\u201c", "\u201d", "\u2019", "\u2014", "\u2026", "(", ")", ".", ",", ";", "\"", "'", "*", "-"]
+        marks = ["\u201c", "\u201d", "\u2019", "\u2014", "\u2026", "(", ")", ".", ",", ";", "\"", "'", "*", "-"] + rng.sample(CONT, 6)
         run = lambda: "".join(rng.choice(marks) for _ in range(rng.randint(0, 6)))  # noqa
         kw = rng.choice(["supra", "see", "Id.", "denied", "citing", "v.", "affirmed", "ibid.", "See also"])
         return f"Foo, {run()}{kw}{run()} at 5"
@@ -114,6 +120,8 @@ def doc(rng):
         r0 = rng.random()
         f = edge_fragment(rng) if r0 < 0.12 else rng.choice(FR) if r0 < 0.7 else gen.frag(rng)
         r = rng.random()
+        if rng.random() < 0.25:
+            f = f + rng.choice(CONT) if rng.random() < 0.5 else rng.choice(CONT) + f
         if r < 0.3:
             f = rng.choice(MB) + f
         if 0.2 < r < 0.5:
